@@ -75,7 +75,9 @@ def o1_cosim(ctx, joiners, relay):
         ctx.check(addr is not None, "renew_address() returns an address while a master is running")
         if addr is None:
             return
-        ctx.check(clock.now - t0 <= 2_300_000_000, "within the given timeout")
+        # the timer is looked at between attempts: one attempt (poll 55 ms + up to 4 contacts x (225 ms wait + two 135 ms
+        # look-ups)) may still be running when it expires
+        ctx.check(clock.now - t0 <= 2_000_000_000 + 2_200_000_000, "within the given timeout (plus at most one attempt)")
         ctx.check(s_and(NS.valid(addr), addr != 0, addr != 0o4444), "a valid address")
         ctx.check(nj.node_address == addr, "node_address is the returned address")
         for (_k, _r, _n, a) in nodes:
